@@ -60,6 +60,34 @@ def directed(rng):
         add('three-%s' % cc, cc, [A, A, A, ns(1), ns(2), ns(3), asg(2, False), asg(1), asg(3), D, dict(a='clientclose', c=3), dict(a='call', c=1), D, dict(a='acceptfail', kind='other'), dict(a='hret', c=1), dict(a='clientclose', c=1), D])
     return out
 
+def chan_part(prop, tier, seed, work, replay_scenario=None):
+    """C10 as far as server.Loop is concerned: the connections it hands to its servers (and the ones it keeps, when the
+    Assigner fails) are closed exactly once.  LoopContract's ChClose carries that guard under the tag C10.  Returns
+    (violations, info)."""
+    rng = random.Random(seed * 7919 + 21)
+    binp = C.build_harness('loopfam', work)
+    if replay_scenario is not None:
+        scs = [replay_scenario]
+    else:
+        scs = []
+        for ci, (cfg, cc) in enumerate((('loop', False), ('loop_net', True))):
+            for bi, beh in enumerate(C.simulate(cfg, 'LoopImpl', 40 if tier == 'quick' else 600, 30, seed * 31 + ci + 7)):
+                scs.append(convert(beh, rng, 'C10-%s-%d' % (cfg, bi), dict(cancelCloses=cc)))
+        for k in range(2 if tier == 'quick' else 6):
+            for d in directed(rng):
+                d = dict(d); d['name'] = 'C10-' + d['name'] + '-s%d' % k; d['seed'] = rng.randrange(1 << 30); scs.append(d)
+    w = os.path.join(work, 'l'); os.makedirs(w, exist_ok=True)
+    traces, info = C.run_scenarios(binp, scs, w)
+    if info['tool_trouble']:
+        raise C.ToolError('; '.join(info['tool_trouble']))
+    accepted, rej = C.validate_traces(traces, 'LoopContract', {prop}, TMPL, w)
+    byname = {s['name']: s for s in scs}
+    violations, anomalies = C.confirm_rejections(prop, rej, lambda n: byname[n], lambda sc, ww: C.run_scenarios(binp, [sc], ww, nworkers=1)[0], 'LoopContract', TMPL, w,
+                                                 extra=lambda name: dict(family='loop'))
+    return violations, dict(loop_scenarios=len(scs), loop_traces_validated=accepted + len(rej),
+                            loop_close_events=sum(1 for t in traces for e in t if e['ev'] == 'ChClose'))
+
+
 def run_check(prop, tier, seed, replay=None):
     t0 = time.time()
     work = C.scratch('loop_' + prop)
